@@ -138,7 +138,7 @@ impl<'e> Lower<'e> {
         match recv {
             F32 | F64 => { let k = fkc(recv);
                 let f1 = |o: &str| Some((r.clone(), p(format!("PF1 {k} {o}")))); let f2 = |o: &str| Some((r.clone(), p(format!("PF2 {k} {o}"))));
-                match name { "abs" => f1("FAbs"), "sqrt" => f1("FSqrt"), "recip" => f1("FRecipStd"), "floor" => f1("FFloor"), "ceil" => f1("FCeil"), "round" => f1("FRound"), "trunc" => f1("FTrunc"), "signum" => f1("FSignum"), "sin" => f1("FSin"), "cos" => f1("FCos"), "tan" => f1("FTan"), "exp" => f1("FExp"), "acos" => f1("FAcos"), "asin" => f1("FAsin"), "neg" => f1("FNeg"),
+                match name { "abs" => f1("FAbs"), "sqrt" => f1("FSqrt"), "recip" => Some((r.clone(), p(format!("RECIP {k}")))), "floor" => f1("FFloor"), "ceil" => f1("FCeil"), "round" => f1("FRound"), "trunc" => f1("FTrunc"), "signum" => f1("FSignum"), "sin" => f1("FSin"), "cos" => f1("FCos"), "tan" => f1("FTan"), "exp" => f1("FExp"), "acos" => f1("FAcos"), "asin" => f1("FAsin"), "neg" => f1("FNeg"),
                     "add" => f2("FAdd"), "sub" => f2("FSub"), "mul" => f2("FMul"), "div" => f2("FDiv"), "rem" => f2("FRem"), "min" => f2("FMinStd"), "max" => f2("FMaxStd"), "copysign" => f2("FCopysign"), "powf" => f2("FPowf"), "atan2" => f2("FAtan2"), "rem_euclid" => f2("FRemEuclid"), "div_euclid" => f2("FDivEuclid"),
                     "mul_add" => Some((r.clone(), p(format!("PF3 {k} FFma")))),
                     "is_nan" => Some((Bool, p(format!("PFPred {k} FIsNan")))), "is_finite" => Some((Bool, p(format!("PFPred {k} FIsFinite")))), "is_sign_negative" => Some((Bool, p(format!("PFPred {k} FSignBit")))),
@@ -164,7 +164,7 @@ impl<'e> Lower<'e> {
             Opt(t) => match name { "unwrap" => Some(((**t).clone(), p("PUnwrap".into()))), _ => None },
             Fmt => match name { "precision" => Some((Opt(Box::new(Int("usize"))), Callee::Ident)), _ => None },
             M128 => { let m = |s: &str| Simd(s.to_string()); let l1 = |o: &str| Some((M128, p(format!("PLanewise1 {o}")))); let l2 = |o: &str| Some((M128, p(format!("PLanewise2 {o}")))); let cm = |o: &str| Some((m("mask32x4"), p(format!("PMapN (PFCmp K32 {o})")))); let pr = |o: &str| Some((m("mask32x4"), p(format!("PMapN (PFPred K32 {o})"))));
-                match name { "abs" => l1("FAbs"), "floor" => l1("FFloor"), "ceil" => l1("FCeil"), "round" => l1("FRound"), "trunc" => l1("FTrunc"), "sqrt" => l1("FSqrt"), "recip" => l1("FRecipStd"), "signum" => l1("FSignum"), "neg" => l1("FNeg"),
+                match name { "abs" => l1("FAbs"), "floor" => l1("FFloor"), "ceil" => l1("FCeil"), "round" => l1("FRound"), "trunc" => l1("FTrunc"), "sqrt" => l1("FSqrt"), "recip" => Some((M128, p("RECIP4".into()))), "signum" => l1("FSignum"), "neg" => l1("FNeg"),
                     "add" => l2("FAdd"), "sub" => l2("FSub"), "mul" => l2("FMul"), "div" => l2("FDiv"), "rem" => l2("FRem"), "copysign" => l2("FCopysign"), "mul_add" => Some((M128, p("PLanewise3 FFma".into()))),
                     "simd_eq" => cm("FEq"), "simd_ne" => cm("FNe"), "simd_lt" => cm("FLt"), "simd_le" => cm("FLe"), "simd_gt" => cm("FGt"), "simd_ge" => cm("FGe"),
                     "is_nan" => pr("FIsNan"), "is_finite" => pr("FIsFinite"), "is_sign_negative" => pr("FSignBit"),
@@ -241,6 +241,9 @@ impl<'e> Lower<'e> {
                 "SHUFFLE" => { let imm = args.pop().unwrap(); let v = match imm { Ir::LitI(_, v) => v, _ => return Err("shuffle imm".into()) }; prim(&format!("PShuffle {v}"), args) }
                 "LOADU" => { let a = args.remove(0); prim("PRange 0 4", vec![a]) }
                 "DERIVED_EQ" => return Err("method-form eq on derived type".into()),
+                "RECIP K32" => { let a = args.remove(0); prim("PF2 K32 FDiv", vec![Ir::LitF32(1.0f32.to_bits()), a]) }
+                "RECIP K64" => { let a = args.remove(0); prim("PF2 K64 FDiv", vec![Ir::LitF64(1.0f64.to_bits()), a]) }
+                "RECIP4" => { let a = args.remove(0); prim("PLanewise2 FDiv", vec![prim("PSet1", vec![Ir::LitF32(1.0f32.to_bits())]), a]) }
                 "MASKEQ" => { prim("PAll", vec![prim("PMapN PBEq", args)]) }
                 "SET1EPI32" => { let a = args.remove(0); prim("PSet1", vec![prim("PFromBits K32", vec![prim("PCastII I32 U32", vec![a])])]) }
                 s if s.starts_with("SINCOS") => { let k = &s[7..]; let a = args.remove(0); let slot = self.next; Ir::Block(vec![St::Let(a)], Box::new(mk(vec![prim(&format!("PF1 {k} FSin"), vec![Ir::Var(slot)]), prim(&format!("PF1 {k} FCos"), vec![Ir::Var(slot)])]))) }
